@@ -34,6 +34,15 @@ TRUSTED_BASE = [
     'into the syntax of Ids/Syntax.v -> Gen/IdsFuns.v) and the semantics given to that syntax by Ids/Interp.v '
     '(weak containers as finite maps, counters as heap objects, hook calls dispatched through the regenerated @hookimpl table, '
     'thread switches between the two counter calls of a trace start only); tied to Ids/Model.v by Ids/Tie.v (C06_tie_*)',
+    'USE of the trace number (C06_tie_dispatch*): LocalTraceFunc.init/local_trace_func, PdbInstanceFactory.init/create_local_trace_func '
+    'and the bodies of the two closures Factory(hook)._factory are translated and interpreted; PINNED by the translator (not '
+    'interpreted): the shape of the two Factory functions around _factory (set-up assignments from TraceCallNoCounter / CmdloopHook / '
+    'PromptFunc, one nested _factory, return _factory), that WithContext(trace, ..) starts from `next_trace = trace` and calls '
+    '`next_trace(frame, event, arg)`, that each id hook (filtered, current_thread_no, current_task_no, current_trace_no, '
+    'on_start/end_task_or_thread, local_trace_func, create_local_trace_func) has exactly one @hookimpl under spawned/plugin/plugins '
+    'and its class is registered once; NOT looked into: CustomizedPdb, StdInOut (opaque objects with identity), the nested _context, '
+    'CmdloopHook / PromptFunc (shared by all Pdb instances by design), Repeater\'s other stamping methods (they read current_trace_no(); '
+    'covered by the run-time oracle only), pluggy\'s call order / firstresult',
     'correspondence harness harness/props/c06.py (program generator, probe P, event stream -> label sequence)',
     'harness/child.py + child_worker.py (real nextline.spawned.main in-process with queue.Queue)',
     'ground truth = threading.current_thread().name / asyncio.current_task().get_name() printed by the probe (unique per object in CPython)',
@@ -490,6 +499,19 @@ def gen_barrier_job(rng):
             'policy': {'kind': 'custom', 'module': 'harness.props.c06', 'func': 'make_policy', 'args': args}}
 
 
+def gen_allstep_job(rng, max_threads, max_tasks):
+    """a program with at least one asyncio task (if tasks are allowed), every prompt answered `step`, nothing withheld:
+    the oracle clause 'every unit that executes script lines is prompted' applies in full"""
+    job = gen_job(rng, max_threads, max_tasks)
+    for _ in range(30):
+        if job['ntasks'] >= 1 or max_tasks == 0:
+            break
+        job = gen_job(rng, max_threads, max_tasks)
+    job['policy']['args']['cmds'] = ['step']
+    job['policy']['args']['p_victim'] = 0.0
+    return job
+
+
 def gen_job(rng, max_threads, max_tasks):
     src, units, nth, ntk = gen_program(rng, max_threads, max_tasks)
     args = {'seed': rng.randrange(1 << 30), 'p_victim': rng.choice([0.0, 0.3, 0.6]),
@@ -703,6 +725,17 @@ def oracle(job, res):
             if tag in truth and truth[tag] in trace_of_actor and trace_of_actor[truth[tag]] != e['trace_no']:
                 bad.append(('prompt-misattributed', f'the prompt at line {e["line_no"]} (unit {tag}, executed by {truth[tag]}) '
                             f'carries trace {e["trace_no"]}; that actor is trace {trace_of_actor[truth[tag]]}'))
+    # every thread / task that executes script lines while every prompt is answered `step` is prompted itself
+    # (a unit that shares another unit's debugger is stepped over silently: its lines run, no prompt shows them)
+    pol = (job.get('policy') or {}).get('args') or {}
+    if pol.get('cmds') == ['step'] and 'scenario' not in pol and 'barrier' not in pol and not (res.get('timeout') or res.get('error')):
+        prompted = {e.get('line_no') for e in events if e['type'] == 'OnStartPrompt' and e.get('file_name') == '<string>'}
+        for tag in sorted(truth):
+            lines = sorted(ln for ln, t in units.items() if t == tag)
+            if lines and not (set(lines) & prompted):
+                bad.append(('unit-never-prompted',
+                            f'unit {tag} (executed by {truth[tag]}) ran its lines {lines[0]}..{lines[-1]} while every prompt was answered '
+                            f'`step`, but no prompt was ever shown at any of them'))
     # (thread number, task number) identifies the actor consistently
     thread_no_of, pair_of = {}, {}
     for who, n in trace_of_actor.items():
@@ -863,13 +896,14 @@ def correspond(ctx) -> Corr:
     n, nth, ntk = (90, 4, 6) if ctx.tier == 'quick' else (3000, 6, 10)
     nsc = 30 if ctx.tier == 'quick' else 600
     nba = 16 if ctx.tier == 'quick' else 300
+    nas = 14 if ctx.tier == 'quick' else 300
     jobs = load_corpus() + [gen_barrier_job(rng) for _ in range(nba)] + [gen_scenario_job(rng) for _ in range(nsc)] \
-        + [gen_job(rng, nth, ntk) for _ in range(n)]
+        + [gen_allstep_job(rng, nth, ntk) for _ in range(nas)] + [gen_job(rng, nth, ntk) for _ in range(n)]
     return _run(ctx, jobs)
 
 
 def search(ctx, broken) -> list:
-    jobs = [gen_job(ctx.rng, 6, 10) for _ in range(400)]
+    jobs = [gen_allstep_job(ctx.rng, 6, 10) for _ in range(60)] + [gen_job(ctx.rng, 6, 10) for _ in range(400)]
     return _run(ctx, jobs).violations
 
 
